@@ -49,6 +49,9 @@ CHECKS = {
  "C15": dict(technique="deterministic simulation: writer -> simulated disk -> independent tokenizer + real reader (scripted chunking) + ASE; restart idempotence; hand-made inputs for the reader",
              text="Generated structures (cells of every family, terms of every kind, extra columns, coordinates inside/outside/on the boundary) are written as P1 CIF in fractional or Cartesian form through every save branch onto the simulated disk, inspected by an independent CIF tokenizer (cell parameters, element order, coordinates to printed precision, charges, bond/angle/torsion label resolution, extra columns), re-read through path / simulated streams, compared with the reference model (fractional coordinates modulo 1, torsions = dihedrals then impropers), re-written twice (T2 == T3), and compared with ASE's reader; plus a hand-made CIF text per run (s.u. parentheses, Cartesian, coordinates several cells away, P1 / non-P1 names).",
              note="PyCifRW 5.0.1 and ASE are real. Type labels are not part of a CIF and are not compared.", ref="5/C15"),
+ "C20": dict(technique="deterministic simulation: CLI run in-process as a client of the library under the scripted random seam, its library calls tapped, files compared with the API path",
+             text="Per run a generated world is written to real files (CIF / LAMMPS data / CML+cell; patterns as CML/LAMMPS/CIF) and the click command is run in-process with a drawn subset of non-default options (atol, fraction, hints incl. 0, replicate, mic, charge file, --pp, output format); the call it makes into the library is observed at a tap (every option value must arrive; the structure handed over must equal load -> charges -> replicate -> mic -> pp through the API), the output file must be byte-identical to the API path's under the same random script, find-only runs must print the API's matches and write the structure unmodified.",
+             note="Known finding printed as KNOWN-FINDING: --framework-element raises AttributeError. 'Same random seed' = same SimRandom script.", ref="5/C20"),
 }
 
 NOT_APPLICABLE = [
